@@ -81,6 +81,10 @@ func (c *Coordinator) Execute(ctx context.Context, tssProcesses []TssProcess, re
 	if c.pendingProcesses[sessionID] {
 		c.processLock.Unlock()
 		log.Warn().Str("SessionID", sessionID).Msgf("Process already pending")
+		// the refused processes never start: release what their constructors acquired (keyshare lock)
+		for _, process := range tssProcesses {
+			process.Stop()
+		}
 		return fmt.Errorf("process already pending")
 	}
 	c.pendingProcesses[sessionID] = true
